@@ -67,6 +67,7 @@ OPS = ["sig", "isd", "isd_cached", "seq"]
 
 class CacheHarness(Harness):
   name = "c14_cache"
+  thorough_only_for = ("C18",)   # many paths, no reader/writer involved: C18 quick tier skips it
   properties = ("C14", "C18")
   functions = ("isd:ISD.from_model", "isd:ISD.significant_times", "isd:ISD.generate_isd_sequence",
                "isd:_clone_doc_with_one_region", "isd:ISD._region_always_has_background")
